@@ -327,6 +327,17 @@ def build_everything(res, pid, need_go=True, extra_files=()):
             ax = blocks.get(t, "(no Print Assumptions for this statement; proof is `exact` of a lemma checked by the same build)" if ok else "not checked")
             res.obligations.append((t, ok, ax))
             res.axioms.append({"theorem": t, "assumptions": ax})
+        if ok and res.tier == "thorough" and os.environ.get("VERIF_NO_COQCHK") != "1":
+            # independent re-check of the compiled property file and everything it depends on
+            rc2, out2 = sh(["coqchk", "-silent", "-o", "-Q", ".", "HC", "HC.Properties.%s" % pid], cwd=COQ, timeout=5400, check=False)
+            m = re.search(r"\* Axioms:\s*(.*?)\n\s*\n", out2, flags=re.S)
+            ax = re.sub(r"\s+", " ", m.group(1)).strip() if m else "?"
+            clean = rc2 == 0 and ax == "<none>" and all(("* %s: <none>" % k) in re.sub(r"\s+", " ", out2) for k in
+                                                        ("Constants/Inductives relying on type-in-type", "Constants/Inductives relying on unsafe (co)fixpoints", "Inductives whose positivity is assumed"))
+            res.obligations.append(("coqchk -o HC.Properties.%s" % pid, clean, "axioms: %s" % ax))
+            res.checker_cmd += " && coqchk -silent -o -Q . HC HC.Properties.%s" % pid
+            if not clean:
+                res.broken.append("coqchk does not accept HC.Properties.%s or reports axioms: %s" % (pid, out2[-400:]))
         for rel in extra_files:
             good = vo_ok(rel)
             res.obligations.append((rel, good, "compiled" if good else "does not compile"))
